@@ -460,6 +460,7 @@ pub fn c17(args: &Args, reg: &[TypeEntry], log: &mut Log) {
             let mut faulted_op = op.clone();
             let mut retry = true;
             let mut ok_allowed = false;
+            let mut from_root_dir = false;
             let mut target_set: BTreeSet<String> = w
                 .decls_of(op)
                 .iter()
@@ -554,7 +555,12 @@ pub fn c17(args: &Args, reg: &[TypeEntry], log: &mut Log) {
                     // one step above the root (the `..` that would pop the root itself), two, or many
                     let depth = std::env::current_dir().map(|d| d.components().count().saturating_sub(1)).unwrap_or(8);
                     let n = [depth + 1, depth + 1, depth + 2, 64][rng.below(4)];
-                    let spelling = if rng.chance(1, 3) {
+                    let spelling = if rng.chance(1, 4) {
+                        // the same relative directory is fine from here and climbs above the root from `/`: the call is made
+                        // with the working directory moved there (and moved back before the retry)
+                        from_root_dir = true;
+                        "../abv-from-root".to_string()
+                    } else if rng.chance(1, 3) {
                         // the same through an absolute directory: from the scratch root up past `/`, and (as the operating
                         // system would resolve it, `/..` being `/`) back down into the scratch root
                         let abs = w.root.to_string_lossy().to_string();
@@ -585,8 +591,14 @@ pub fn c17(args: &Args, reg: &[TypeEntry], log: &mut Log) {
             *injected.entry(format!("{obstacle:?}")).or_default() += 1;
             let with_obstacle = snapshot(&w.root);
             let registry_before = verif::registry_snapshot();
+            if from_root_dir {
+                std::env::set_current_dir("/").unwrap();
+            }
             let r = run_op(reg, &faulted_op);
-            trace.push(json!({"op": faulted_op.describe(reg), "obstacle": format!("{obstacle:?}"), "result": r.json()}));
+            if from_root_dir {
+                std::env::set_current_dir(&w.root).unwrap();
+            }
+            trace.push(json!({"op": faulted_op.describe(reg), "obstacle": format!("{obstacle:?}"), "from_root_dir": from_root_dir, "result": r.json()}));
             match &r {
                 Outcome::Err(_) => {}
                 Outcome::Panic(p) => problem = Some(("panic-instead-of-error".into(), format!("{} with {obstacle:?}: {p}", faulted_op.describe(reg)))),
